@@ -16,8 +16,10 @@ RECURSIVE ISumV(_)
 ISumV(q) == IF q = <<>> THEN <<0, 0, 0>> ELSE IAdd(q[1], ISumV(Tail(q)))
 RECURSIVE ISumI(_)
 ISumI(q) == IF q = <<>> THEN 0 ELSE q[1] + ISumI(Tail(q))
-IsSq(x) == \E k \in 0..x : k * k = x
-ISqrt(x) == CHOOSE k \in 0..x : k * k = x
+RECURSIVE Bis(_, _, _)
+Bis(x, lo, hi) == IF lo >= hi THEN lo ELSE LET mid == (lo + hi + 1) \div 2 IN IF mid * mid <= x THEN Bis(x, mid, hi) ELSE Bis(x, lo, mid - 1)
+ISqrt(x) == Bis(x, 0, IF x < 46340 THEN x ELSE 46340)          \* integer square root by bisection (46340^2 < 2^31)
+IsSq(x) == ISqrt(x) * ISqrt(x) = x
 Sg(x) == IF x > 0 THEN 1 ELSE IF x < 0 THEN -1 ELSE 0
 
 (* ---- faces ---- *)
